@@ -20,7 +20,9 @@ def readableSym (s : String) : Bool :=
   | .ok [t] =>
     Read.tokStr t == s &&
     (match t.kind with
-     | .ident => s != "nil" && s != "true" && s != "false" && s.toList.head? != some '$' && s != "~@" && s != "#{"
+     -- (a `$name` spelling is an ordinary symbol for READ without a placeholder table — repair of D4 — and
+     --  values are always re-read without a table, so such symbols are part of the data domain)
+     | .ident => s != "nil" && s != "true" && s != "false" && s != "~@" && s != "#{"
      | .char c => !(['\'', '`', '~', '^', '@', '(', ')', '[', ']', '{', '}', '«', '»'].contains (Char.ofNat c))
      | _ => false)
   | _ => false
